@@ -1072,6 +1072,45 @@ where
     A: Clone,
 {
     // (e1, e2, ...)
+    // A one-element tuple is written `(e,)`: without its comma it would be read back as a
+    // parenthesised expression, a different program.
+    let mut commas = 0usize;
+    let mut elems = 0usize;
+    for &child in children.iter() {
+        match ctx.arena.get(child) {
+            mimium_lang::compiler::parser::green::GreenNode::Token { token_index, .. } => {
+                match ctx.tokens[*token_index].kind {
+                    TokenKind::Comma => commas += 1,
+                    TokenKind::ParenBegin | TokenKind::ParenEnd => {}
+                    _ => elems += 1,
+                }
+            }
+            _ => elems += 1,
+        }
+    }
+    if commas == 1 && elems == 1 {
+        let mut result = allocator.nil();
+        for &child in children.iter() {
+            let is_close = matches!(
+                ctx.arena.get(child),
+                mimium_lang::compiler::parser::green::GreenNode::Token { token_index, .. }
+                    if ctx.tokens[*token_index].kind == TokenKind::ParenEnd
+            );
+            let is_comma = matches!(
+                ctx.arena.get(child),
+                mimium_lang::compiler::parser::green::GreenNode::Token { token_index, .. }
+                    if ctx.tokens[*token_index].kind == TokenKind::Comma
+            );
+            if is_comma {
+                continue;
+            }
+            if is_close {
+                result = result.append(allocator.text(","));
+            }
+            result = result.append(cst_to_doc(child, ctx, allocator));
+        }
+        return result;
+    }
     print_grouped_list(children, ctx, allocator, "(", ")")
 }
 
